@@ -1,7 +1,7 @@
 """C08 — ISO 9797-1 padding methods 1, 2, 3 are exact."""
 from core import Case, enc_b
 
-OBLIGATIONS = []
+OBLIGATIONS = ["Psec.Props.C08.pad1Count_least", "Psec.Props.C08.pad1_spec", "Psec.Props.C08.pad2_spec", "Psec.Props.C08.pad2_count", "Psec.Props.C08.pad3_spec", "Psec.Props.C08.pad_length", "Psec.Props.C08.pad_prefix", "Psec.Props.C08.pad2_injective", "Psec.Props.C08.pad3_injective", "Psec.Props.C08.pad1_not_injective"]
 TRUSTED_BASE = ["Lean 4.33 kernel", "correspondence harness (Python) and compiled driver", "Python bytes/int semantics as modelled in Py.lean"]
 RULE = ("exhaustive over message length 0..4 blocks x block sizes {None,1,2,3,4,5,7,8,16,24} x content patterns "
         "(random, zeros, trailing 0x80, trailing 0x80 00.., trailing 0x00) x methods 1,2,3; distinct = distinct (method, bs, data)")
